@@ -20,6 +20,8 @@ import (
 	corev1 "k8s.io/api/core/v1"
 	"k8s.io/client-go/tools/cache"
 	"k8s.io/klog/v2"
+
+	"github.com/koordinator-sh/koordinator/apis/extension"
 )
 
 // todo the eventHandler's operation should be a complete transaction in the future work.
@@ -55,6 +57,13 @@ func (g *Plugin) OnPodUpdate(oldObj, newObj interface{}) {
 	oldQuotaName, oldTree := g.getPodAssociateQuotaNameAndTreeID(oldPod)
 	newQuotaName, newTree := g.getPodAssociateQuotaNameAndTreeID(newPod)
 
+	if oldQuotaName == newQuotaName && oldTree == newTree {
+		g.migrateParkedPodIfNeeded(oldPod, oldQuotaName, g.GetGroupQuotaManagerForTree(oldTree))
+	} else if oldTree != "" && g.isPodInDefaultQuota(oldPod) {
+		// the pod leaves a quota of another quota tree which it has never been moved into, it is still in the DefaultQuotaGroup
+		// and is updated or moved from there.
+		oldQuotaName, oldTree = extension.DefaultQuotaName, ""
+	}
 	if oldTree == newTree {
 		mgr := g.GetGroupQuotaManagerForTree(newTree)
 		if mgr != nil {
@@ -121,6 +130,7 @@ func (g *Plugin) handlePodDelete(pod *corev1.Pod) {
 	}
 
 	mgr := g.GetGroupQuotaManagerForTree(treeID)
+	g.migrateParkedPodIfNeeded(pod, quotaName, mgr)
 	if mgr != nil {
 		mgr.OnPodDelete(quotaName, pod)
 		klog.V(5).Infof("OnPodDeleteFunc %v delete success, quota: %v, tree: %v", klog.KObj(pod), quotaName, treeID)
